@@ -43,7 +43,19 @@ def prepare(rep):
         ctx.coqchk = vlib.run_coqchk(rep.prop)
         rep.coverage['coqchk'] = ctx.coqchk
         rep.coverage['checker_cmd'] += ' && coqchk -o -silent Solstat.%s' % rep.prop
-    if pins:
+    # regenerated tables that could not be re-read from the current source
+    gen_broken = []
+    if vlib.GEN_ERRORS:
+        deps = set()
+        for f in pr.get('files', []):
+            deps |= vlib.module_deps(os.path.basename(f)[:-2])
+        gen_broken = ['%s (%s)' % (g, vlib.GEN_ERRORS[g]) for g in sorted(vlib.GEN_ERRORS) if g[:-2] in deps]
+    rep.coverage['regenerated_tables_unreadable'] = gen_broken
+    if gen_broken:
+        ctx.proof_broken = ('the translator cannot read the current source, so the obligations over the regenerated table are not '
+                            're-established: ' + '; '.join(gen_broken)[:800])
+        rep.coverage['discharged'] = 0
+    elif pins:
         ctx.proof_broken = 'pinned statement changed (tools/pin_statements.py): ' + '; '.join(pins[:5])
         rep.coverage['discharged'] = 0
     elif ctx.coqchk is not None and not ctx.coqchk['ok']:
